@@ -1159,6 +1159,13 @@ class Interp(Engine):
             else:
                 x, y = self.as_real(a), self.as_real(b)
             return SV(_Z3CMP[op](x, y), 'bool')
+        if op in ('==', '!=') and isinstance(a, SeqV) and a.kind == 'array' and a.items is None and \
+                (isinstance(b, (int, float, str)) or (isinstance(b, SV) and (b.kind != 'val' or b.tag == 'scalar'))):
+            # 1-D array compared with a scalar: element-wise
+            self.used_lib.add('array==scalar')
+            src = a
+            return SeqV(length=a.zlen(), kind='array',
+                        elem=lambda t, src=src, b=b, op=op: self.compare(op, self.seq_elem(src, t), b))
         if op in ('==', '!='):
             if isinstance(a, str) or isinstance(b, str) or a is None or b is None:
                 other = b if (isinstance(a, str) or a is None) else a
